@@ -119,3 +119,17 @@ Fixpoint play (b : Board) (ms : list string) : option Board :=
   | [] => Some b
   | m :: t => match find_move b m with Some p => play (make_move b p) t | None => None end
   end.
+
+(* ---- evaluation cases (C17) ---- *)
+From Coq Require Import ZArith.
+From RCE Require Import model.Eval.
+Definition enc_zz (z : Z) : N * N := if (z <? 0)%Z then (1%N, Z.to_N (- z)) else (0%N, Z.to_N z).
+Definition eval_case (fen : string) :=
+  match from_fen fen with
+  | None => None
+  | Some b => Some (enc_zz (evaluate b), enc_zz (evaluate (mirror_board b)), enc_zz (evaluate (swap_turn b)),
+                    enc_bool (material_bounded b), enc_bool (boards_lt64 (bbs b)), enc_bbs (mirror_bbs (bbs b)))
+  end.
+(* ---- FEN cases (C07): the full state the reader builds ---- *)
+Definition fen_case (fen : string) :=
+  match from_fen fen with None => None | Some b => Some (enc_state_k b) end.
